@@ -17,6 +17,7 @@ import IocProofs.Lemmas.SemApp
 import IocProofs.Lemmas.ConcStart
 import IocProofs.Lemmas.SemIocRun
 import IocProofs.Lemmas.SemAppOptions
+import IocProofs.Lemmas.SemAppRun
 namespace Ioc.C13
 open Ioc Ioc.M2 Ioc.App
 
@@ -243,5 +244,31 @@ theorem C13_code_component_options (r f : Nat) (cs : List Go.Val) (ops : List Na
   ⟨setRegistry_sem r w, setFactory_sem f w, setComponents_sem cs w, options_sem ops w⟩
 
 end entry
+
+section apprun
+open Ioc.Go Ioc.Sem
+
+/-- App.Run, regenerated (interpretation Ioc.SemAppRun; `Fatalf` is kept as a call — it returns only when the log level is
+    above Fatal): the options given are applied first, in the order given, then the package-level ones; then `initiate`,
+    then — when it succeeded — `run` exactly once, whose error is returned as it is.  When `initiate` fails, Run either never
+    returns or (Fatalf returned) goes on to `run`: it does not return initiate's error -/
+theorem C13_code_App_Run (p : ARP) (ops : List Nat) (w : List ACall) :
+    run (arPrims p) Progs.app_Run [optVals ops] w =
+      (if p.initErr.isSome && !p.fatalReturns then none
+       else some (encOptE p.runErr, w ++ (ops ++ p.globals).map ACall.option ++ [.initiate, .run])) :=
+  appRun_sem p ops w
+
+/-- App.initiate, regenerated: a missing configure / registry / factory is reported, in that order, before anything is set or
+    registered; otherwise the factory gets the registry and the configure, and the App itself and the nine built-in
+    processors are registered in the order written -/
+theorem C13_code_initiate (p : AIP) (w : List ACall) :
+    run (aiPrims p) Progs.app_initiate [] w =
+      some (if !p.hasConf then (.str "missing configure", w)
+            else if !p.hasReg then (.str "missing registry", w)
+            else if !p.hasFac then (.str "missing factory", w)
+            else (.nil, w ++ [.setRegistry, .setConfigure] ++ builtinOrder.map ACall.register)) :=
+  initiate_sem p w
+
+end apprun
 
 end Ioc.C13
